@@ -487,6 +487,13 @@ class Gen:
     def ignored_obj(self, top):
         rng = self.rng
         defs = [d for d, _ in self.defs]
+        if rng.random() < 0.2:
+            # an ignored PLATE: nothing of it may be instantiated (comments are removed before plates expand)
+            stem = self.fresh("ipl")
+            self.features.add("ignored-plate")
+            return {"type": rng.choice(["torchtree.Plate", "Plate"]), "range": rng.choice(["0:2", "1:2", "3"]), "var": "i",
+                    "object": {"id": f"{stem}.${{i}}", "type": self.ty("Parameter"), "tensor": [self.num()]},
+                    "ignore": rng.choice([True, 1, "yes"])}
         o = copy.deepcopy(rng.choice(defs)) if defs and rng.random() < 0.6 else {"note": "x"}
         o["ignore"] = rng.choice([True, True, 1, "yes", [0], {"a": 1}, 2.5])
         return o
